@@ -143,7 +143,84 @@ def check(run: Run, prog: Program, model: Model, tier: str) -> None:
     run.floor("ARM", 11)
     run.floor("ONLY-VALUEERROR", 14)
     run.floor("FINAL", 4)
+    _memo(run, prog, model, fn)
+    _refuses_plain.model = model  # type: ignore
+    _refuses_plain(run, prog, fn, results)
     _key_identity(run, prog, model, fn, results.get("dict", []))
+
+
+def _memo(run: Run, prog: Program, model: Model, fn: Any) -> None:
+    """MEMO: the conversion depends on the *kind* of its argument (isinstance ladder; True/1/1.0 are equal and hash
+    alike), so no function on the from_native path may be memoised by equality: lru_cache / cache without
+    typed=True, or a dict keyed by the value."""
+    import ast as _ast
+    from ..flow import call_closure, dotted, function_local_imports
+    funcs = call_closure(prog, [fn])
+    funcs = [f for f in funcs if f.module.name.startswith("d42.utils")]
+    bad = 0
+    for f in funcs:
+        for d in f.node.decorator_list:
+            name = dotted(prog, f.module, d.func if isinstance(d, _ast.Call) else d, function_local_imports(f.node)) or _ast.unparse(d)
+            if name.split(".")[-1] in ("lru_cache", "cache"):
+                typed = isinstance(d, _ast.Call) and any(k.arg == "typed" and isinstance(k.value, _ast.Constant) and k.value.value is True for k in d.keywords)
+                if not typed:
+                    bad += 1
+                    run.violated("MEMO", f"{f.qualname}: @{name.split('.')[-1]}", f.loc,
+                                 "a kind-sensitive conversion is memoised by equality/hash: True, 1 and 1.0 share one cache slot",
+                                 witness="from_native(True); from_native(1.0) returns schema.bool(True), which rejects 1.0")
+        # value-keyed module-level dict caches
+        for n in _ast.walk(f.node):
+            if isinstance(n, _ast.Subscript) and isinstance(n.value, _ast.Name) and n.value.id in f.module.bindings \
+                    and f.module.bindings[n.value.id].kind == "assign" and isinstance(n.ctx, _ast.Store):
+                idx = n.slice
+                params = {a.arg for a in f.node.args.args}
+                if isinstance(idx, _ast.Name) and idx.id in params:
+                    bad += 1
+                    run.violated("MEMO", f"{f.qualname}: {n.value.id}[{idx.id}] cache", f"{f.module.path}:{n.lineno}",
+                                 "converted values are cached in a module-level dict keyed by the value itself: equal values of "
+                                 "different kinds (3 and 3.0, True and 1) share one slot",
+                                 witness="from_native(3) then from_native(3.0) returns schema.int(3), which rejects 3.0")
+    if not bad:
+        run.holds("MEMO", "from_native call closure", fn.loc, f"no equality-keyed memoisation in {len(funcs)} functions", nontrivial=False)
+    run.floor("MEMO", 1)
+
+
+def _refuses_plain(run: Run, prog: Program, fn: Any, results: Dict[str, List[Path]]) -> None:
+    """A plain value may be refused (ValueError) only for a documented non-plain trait of the value itself.
+    Containers are evaluated one recursion level deep, so a refusal that needs a nested member is visible."""
+    ok_markers = ("optional|ellipsis", "ellipsis|optional", "version")
+    plain_kinds = {k for k, w in KINDS if w is not None}
+    model = _refuses_plain.model  # type: ignore
+    for kind, want in KINDS:
+        if want is None or kind not in results:
+            continue
+        paths = results[kind]
+        if kind in ("list", "dict"):
+            it = Interp(prog, model, unroll=1, max_depth=9)
+            it.max_recursion = 2   # type: ignore
+
+            def run1(i: Interp) -> V:
+                return i.call_function(fn, [Sym("value", kind, ("param", "value"), exact=True)], {})
+            paths = it.run_paths(run1, max_paths=1500)
+        odd = []
+        for p in paths:
+            if p.outcome == "raise" and isinstance(p.value, ExcV) and p.value.cls is ValueError and not p.implicit:
+                conds = [("" if b else "not ") + k for k, _, b in p.facts]
+                if any(any(m in c for m in ok_markers) for c in conds):
+                    continue
+                inst = [(t, b) for _, t, b in p.facts if isinstance(t, Term) and t.op == "isinstance" and "|" not in str(t.args[1])]
+                if inst and inst[-1][1] is False:
+                    continue        # fell off the end of the ladder: a member of a non-plain kind
+                if inst and str(inst[-1][0].args[1]) not in plain_kinds and kind not in ("list", "dict"):
+                    continue
+                odd.append(", ".join(c for c in conds if not c.startswith(("isinstance(value", "not isinstance(value")))[:160] or "unconditionally")
+        c = f"from_native(<{kind}>): refusal"
+        if odd:
+            run.violated("REFUSES-PLAIN", c, fn.loc, f"a plain {kind} is refused with ValueError when {odd[0]}",
+                         witness=f"from_native(<plain {kind}>) raises ValueError (e.g. a container referenced twice inside one value)")
+        else:
+            run.holds("REFUSES-PLAIN", c, fn.loc, "refused only for `...`/optional keys or a non-v4 UUID", nontrivial=False)
+    run.floor("REFUSES-PLAIN", 10)
 
 
 def _check_recursion(kind: str, pv: Dict[str, V], probs: List[str]) -> None:
@@ -231,4 +308,12 @@ MUTANTS = [
     {"name": "neutral: explicit loop guard for keys", "expect": "SILENT",
      "edits": [(FN, "        if any(isinstance(key, (optional, type(...))) for key in value):\n            raise ValueError(value)\n",
                 "        if any(isinstance(key, (optional, type(...))) for key in value):\n            raise ValueError(f\"bad key in {value!r}\")\n")]},
+]
+
+MUTANTS += [
+    {"name": "scalar conversion behind functools.lru_cache", "rule": "MEMO",
+     "edits": [(FN, "def from_native(value: Any) -> GenericSchema:\n    if value is None:", "def from_native(value: Any) -> GenericSchema:\n    if isinstance(value, (bool, int, float, str)):\n        return _scalar(value)\n    return _convert(value)\n\n\n@functools.lru_cache(maxsize=256)\ndef _scalar(value: Any) -> GenericSchema:\n    return _convert(value)\n\n\ndef _convert(value: Any) -> GenericSchema:\n    if value is None:"),
+               (FN, "from datetime import date, datetime\n", "import functools\nfrom datetime import date, datetime\n")]},
+    {"name": "lists longer than a limit refused", "rule": "REFUSES-PLAIN",
+     "edits": [(FN, "    elif isinstance(value, list):\n", "    elif isinstance(value, list):\n        if len(value) > 1000:\n            raise ValueError(\"too long\")\n")]},
 ]
